@@ -1034,6 +1034,15 @@ fn gen_exhaustive(ctx: &Ctx, cases: &mut Vec<String>) {
             push_m(cases, prefix, &[p.clone()], true, &paths4);
         }
     }
+    // multi-byte characters: byte offsets vs character counts, exhaustively on a tiny alphabet
+    let upaths = all_strings(&['a', '/', 'é', '😀'], 4);
+    for a in MENU {
+        for prefix in [false, true] {
+            push_m(cases, prefix, &[inst(a, 0)], true, &upaths);
+            push_m(cases, prefix, &[format!("/é{}", inst(a, 0))], true, &upaths);
+            push_m(cases, prefix, &[format!("{}{{y:.{{1,2}}}}", inst(a, 0))], true, &upaths);
+        }
+    }
     // pattern lists of ≤ 2 (and the degenerate lists of 0 and 1)
     let small = ["/a", "/{x}", "{x}", "/{x:\\d+}", "/a/{x}", "/{x}/{y}", "{x}-{y}", "/{t}*", "/a{x:[ab]{2}}", ""];
     let paths3 = all_strings(&alpha, 4);
